@@ -114,6 +114,7 @@ func checkC15(p *core.Program, r *core.Report) {
 	r.Rule("O15.2", "each fallible call in the loader functions (ReadSystemFrom*) reaches the named/returned error on every path")
 	r.Rule("O15.4", "the load chain terminates with an error on a short file: a pipe's write end is closed on every path; a deferred function does not call through a field of the system that is still unset on early error returns")
 	r.Rule("O15.5", "no integer division in the load chain whose divisor can be zero (empty file ⇒ panic)")
+	r.Rule("O15.7", "a section reader of the load chain performs the same reads before every success return (no early success under a flag)")
 	r.Rule("O15.6", "the load chain reads no package-level variable that non-initialiser code writes (a reused buffer completes a truncated file with the tail of an earlier load)")
 	r.Rule("O15.3", "callers of a loader do not use the returned system before the error is ruled out and return the error")
 	r.Trusted = append(r.Trusted, "go/types, go/cfg construction", "gnark section decoders report truncation as an error", "io.ReadFull returns an error on short reads")
@@ -166,6 +167,8 @@ func checkC15(p *core.Program, r *core.Report) {
 	checkLoadChainDivisions(p, r, li.chain)
 	// O15.6: the load chain keeps no state between loads
 	checkLoadChainState(p, r, li.chain)
+	// O15.7: no success path that reads fewer sections than another
+	checkReaderCompleteness(p, r, li.chain)
 	// O15.3 callers
 	inChain := map[ast.Node]bool{}
 	for _, u := range li.chain {
